@@ -159,6 +159,36 @@ func genRun(rng *rand.Rand, k int, maxJ, maxN int) RunSpec {
 	return rs
 }
 
+// genFanin: jobs 1..J-2 independent, job J-1 depends on all of them, job J on J-1.
+func genFanin(rng *rand.Rand, k, maxJ, maxN int) RunSpec {
+	J := 200 + rng.Intn(maxJ-199)
+	rs := RunSpec{Run: k, Seed: rng.Int63(), J: J, N: 1 + rng.Intn(maxN), Coe: rng.Intn(2) == 0, CancelMode: "none"}
+	failing := 0
+	if rng.Intn(2) == 0 {
+		failing = 1 + rng.Intn(J-2)
+	}
+	for j := 1; j <= J; j++ {
+		deps := []int{}
+		if j == J-1 {
+			for d := 1; d <= J-2; d++ {
+				deps = append(deps, d)
+			}
+		} else if j == J {
+			deps = []int{J - 1}
+		}
+		rs.Deps = append(rs.Deps, deps)
+		o := "ok"
+		if j == failing {
+			o = "err"
+		}
+		rs.Out = append(rs.Out, o)
+		rs.Cls = append(rs.Cls, j)
+		rs.BodyUs = append(rs.BodyUs, 20+rng.Intn(60))
+		rs.EnqUs = append(rs.EnqUs, 0)
+	}
+	return rs
+}
+
 type stateEmitter struct {
 	x     *exec
 	sleep int
@@ -495,6 +525,13 @@ func main() {
 		rng := rand.New(rand.NewSource(*seed))
 		for k := 1; k <= *runs; k++ {
 			specs = append(specs, genRun(rng, k, *maxJ, *maxN))
+		}
+	case "fanin":
+		// wide fan-in: one job depends on hundreds of others (End hooks of large collections,
+		// counters that might be narrower than int), in both modes, with and without a failure
+		rng := rand.New(rand.NewSource(*seed))
+		for k := 1; k <= *runs; k++ {
+			specs = append(specs, genFanin(rng, k, *maxJ, *maxN))
 		}
 	case "replay":
 		specs = readSpecs(*in)
